@@ -33,7 +33,7 @@ var ctorFormatArg = map[string]int{
 	"gqlerror.ErrorLocf": 3, "ErrorLocf": 3,
 	"gqlerror.ErrorPosf": 1, "ErrorPosf": 1,
 	"gqlerror.ErrorPathf": 1, "ErrorPathf": 1,
-	"gqlerror.Errorf": 0,
+	"gqlerror.Errorf":   0,
 	"validator.Message": 0, "Message": 0,
 	"fmt.Errorf": 0,
 }
